@@ -645,6 +645,8 @@ def _root_owned(cfg, at):
 
 
 WITNESSES = [
+    {"id": "c19-twin-node-repr", "rule": "R-19.14", "file": "dns/btree.py", "expect": "silent",
+     "old": "    def is_maximal(self) -> bool:", "new": "    def __repr__(self) -> str:\n        return f\"<node {len(self.elts)} elts>\"\n\n    def is_maximal(self) -> bool:"},
     {"id": "c19-node-len-makes-empty-clone-falsy", "rule": "R-19.14", "file": "dns/btree.py", "expect": "fires",
      "old": "    def is_maximal(self) -> bool:", "new": "    def __len__(self) -> int:\n        return len(self.elts)\n\n    def is_maximal(self) -> bool:"},
     {"id": "c19-cursor-exit-swallows", "rule": "R-19.13", "file": "dns/btree.py", "expect": "fires",
